@@ -1,5 +1,6 @@
 mod artefacts;
 mod ast;
+mod behave;
 mod css;
 mod determinism;
 mod exprs;
@@ -8,6 +9,7 @@ mod gen_tmpl;
 mod lit;
 mod path;
 mod probe;
+mod scopes;
 mod util;
 
 fn main() {
@@ -19,17 +21,20 @@ fn main() {
     let seed: u64 = args.get(3).and_then(|s| s.parse().ok()).unwrap_or(1);
     let mut out = util::Out::new();
     match cmd {
-        "css" => css::run(tier, seed, &mut out),
+        "css" => css::run(tier, seed, &args, &mut out),
         "cssone" => css::run_one(&mut out),
         "cssnum" => css::run_num(tier, seed, &mut out),
         "ident" => artefacts::ident(tier, seed, &mut out),
         "artefacts" => artefacts::artefacts(tier, seed, &mut out),
+        "behave" => behave::run(tier, seed, &mut out),
+        "behave_subsets" => behave::run_subsets(tier, seed, &mut out),
         "determinism" => determinism::run(tier, seed, &mut out),
         "exprgen" => exprs::run_gen(tier, seed, &mut out),
         "exprval" => exprs::run_val(tier, seed, &mut out),
         "lit" => lit::run(tier, seed, &mut out),
         "litctx" => lit::run_ctx(tier, seed, &mut out),
         "path" => path::run(tier, seed, &mut out),
+        "scopes" => scopes::run(tier, seed, &mut out),
         "probe" => probe::run(&args[2..]),
         _ => {
             eprintln!("unknown command {}", cmd);
